@@ -230,6 +230,17 @@ func validateDatatype(k string, v any, typ string) string {
 	return ""
 }
 
+// hasNonNilValue reports whether at least one key of the map has a value
+// other than nil.
+func hasNonNilValue(m map[string]any) bool {
+	for _, v := range m {
+		if v != nil {
+			return true
+		}
+	}
+	return false
+}
+
 func maskString(s string) string {
 	if len(s) < 4 {
 		return "****"
@@ -654,9 +665,14 @@ func (m *Metadata) ValidateRules(data map[string]any) ValidationResults {
 			} else {
 				foundDefault := false
 				for k, v := range samplers {
-					if _, ok := v.(map[string]any); !ok {
+					if sampler, ok := v.(map[string]any); !ok {
 						results = append(results, ValidationResult{
 							Message:  fmt.Sprintf("Sampler %s must be a map, but %v is %T", k, v, v),
+							Severity: Error,
+						})
+					} else if !hasNonNilValue(sampler) {
+						results = append(results, ValidationResult{
+							Message:  fmt.Sprintf("Sampler %s must specify a sampler type (such as DeterministicSampler) and its settings", k),
 							Severity: Error,
 						})
 					}
